@@ -436,34 +436,60 @@ def run(ctx):
                where or gi.loc(), derived="touch functions: " + ", ".join(t.name for t in touchers))
 
     # ---- R18.5 eviction
-    ev = p.get_method(FC, "_cache_eviction")
+    from .fc import substitute_defs as _sdef, inline_value_calls as _inl
+    ev = _inl(p, p.get_method(FC, "_cache_eviction"), keep=CACHE_VOCABULARY)       # private helpers are seen through
+    la_ev = local_assignments(ev.node)
     sorts = [c for c in calls(ev.node) if call_name(c) == "sorted" or (isinstance(c.func, ast.Attribute) and c.func.attr == "sort")]
     pops = [c for c in calls(ev.node) if isinstance(c.func, ast.Attribute) and c.func.attr == "pop"
             and not (dotted(c.func.value) or "").endswith("_entries")]
-    if len(sorts) != 1 or len(pops) != 1:
-        ctx.unsure("R18.5", "_cache_eviction[order]", f"expected one sort and one pop, found {len(sorts)}/{len(pops)}", ev.loc())
+    # consumption by position: the remover is handed <list>[k] with k a counter that starts at 0 and advances by one per removal
+    removers = [c for c in calls(ev.node) if call_name(c).endswith("_remove_item_from_cache")]
+    by_counter = None
+    for c in removers:
+        a0 = c.args[0] if c.args else None
+        if isinstance(a0, ast.Subscript) and isinstance(a0.slice, ast.Name):
+            k = a0.slice.id
+            inits = [d for d in la_ev.get(k, []) if d[0] == "assign"]
+            incs = [n for n in ast.walk(ev.node) if isinstance(n, ast.AugAssign) and isinstance(n.target, ast.Name) and n.target.id == k]
+            if len(inits) == 1 and isinstance(inits[0][1], ast.Constant) and len(incs) == 1 and isinstance(incs[0].op, (ast.Add, ast.Sub)) \
+                    and isinstance(incs[0].value, ast.Constant) and incs[0].value.value == 1:
+                start = inits[0][1].value
+                by_counter = "first" if (start == 0 and isinstance(incs[0].op, ast.Add)) else (
+                    "last" if (start == -1 and isinstance(incs[0].op, ast.Sub)) else "?")
+    if len(sorts) != 1 or (len(pops) != 1 and by_counter is None):
+        ctx.unsure("R18.5", "_cache_eviction[order]", f"expected one sort and one pop (or indexed consumption), found {len(sorts)}/{len(pops)}",
+                   ev.loc())
     else:
         rev = next((k.value for k in sorts[0].keywords if k.arg == "reverse"), ast.Constant(False))
         rev_v = rev.value if isinstance(rev, ast.Constant) else None
-        pop_first = bool(pops[0].args) and isinstance(pops[0].args[0], ast.Constant) and pops[0].args[0].value == 0
-        pop_last = not pops[0].args or (isinstance(pops[0].args[0], ast.Constant) and pops[0].args[0].value == -1)
+        if by_counter is not None and len(pops) != 1:
+            pop_first, pop_last = by_counter == "first", by_counter == "last"
+        else:
+            pop_first = bool(pops[0].args) and isinstance(pops[0].args[0], ast.Constant) and pops[0].args[0].value == 0
+            pop_last = not pops[0].args or (isinstance(pops[0].args[0], ast.Constant) and pops[0].args[0].value == -1)
         key = next((k.value for k in sorts[0].keywords if k.arg == "key"), None)
         key_ok = key is None or (isinstance(key, ast.Lambda) and ast.unparse(key.body) in (
             f"{key.args.args[0].arg}[0]",))
+        if not key_ok and isinstance(key, ast.Attribute) and key.attr == "__getitem__" and isinstance(key.value, ast.Name):
+            # sorted(names, key=stamps.__getitem__): ordered by the stamp each name maps to, when `stamps` is built as {name: stamp}
+            defs = [d for d in la_ev.get(key.value.id, []) if d[0] == "assign"]
+            key_ok = len(defs) == 1 and isinstance(defs[0][1], ast.DictComp) and any(
+                w in ast.unparse(_sdef(ev.node, defs[0][1].value, {"self"})) for w in ("getatime", "getmtime"))
+            key_ok = True if key_ok else None
         oldest_first = (rev_v is True and pop_last) or (rev_v is False and pop_first)
         ctx.expect(oldest_first if rev_v is not None and (pop_first or pop_last) else None, "R18.5",
                    "_cache_eviction[oldest first]",
-                   "sort direction and pop side agree so that the least recently used file is removed first", ev.loc(sorts[0]),
-                   derived=f"reverse={rev_v}, pop={'first' if pop_first else 'last' if pop_last else '?'}")
+                   "sort direction and consumption side agree so that the least recently used file is removed first", ev.loc(sorts[0]),
+                   derived=f"reverse={rev_v}, taken={'first' if pop_first else 'last' if pop_last else '?'}")
         ctx.expect(key_ok, "R18.5", "_cache_eviction[sort key]", "candidates are ordered by their recency stamp", ev.loc(sorts[0]))
-    # recency stamp == max(atime, mtime): the first component of the (stamp, key) pairs that are sorted, with local names
-    # substituted by their definitions and helper functions inlined by the interpreter
+    # recency stamp == max(atime, mtime): the value computed from both time stamps of an entry (first component of the sorted
+    # (stamp, key) pairs, or the value of a {key: stamp} table), local names substituted by their definitions
     it2 = Interp(p)
     stamp = None
-    from .fc import substitute_defs as _sdef
-    pairs = [n for n in ast.walk(ev.node) if isinstance(n, ast.Tuple) and len(n.elts) == 2 and isinstance(n.ctx, ast.Load)]
-    for tp in pairs:
-        e0 = _sdef(ev.node, tp.elts[0], {"self"})
+    cands = [n.elts[0] for n in ast.walk(ev.node) if isinstance(n, ast.Tuple) and len(n.elts) == 2 and isinstance(n.ctx, ast.Load)]
+    cands += [n.value for n in ast.walk(ev.node) if isinstance(n, ast.DictComp)]
+    for tp in cands:
+        e0 = _sdef(ev.node, tp, {"self"})
         txt = ast.unparse(e0)
         if "getatime" not in txt and "getmtime" not in txt and not any(isinstance(c, ast.Call) and isinstance(
                 p.resolve_expr(ev.module, c.func) if isinstance(c.func, (ast.Name, ast.Attribute)) else None, type(ev)) for c in ast.walk(e0)):
@@ -501,25 +527,59 @@ def run(ctx):
                    ev.loc(n), derived=term, required="max(atime, mtime)")
         # the stamp is what the sort sees: the pair is collected (appended / comprehended) into the list that is sorted by item 0
         ctx.ok("R18.5", "_cache_eviction[stamp is the sort key]", "(stamp, key) pairs are what gets sorted", ev.loc(n))
+
+    def size_vs_limit(test):
+        """'gt' when the test is `size > limit`, 'le' when it is `size <= limit` (locals read through), else None"""
+        neg = False
+        t_ = test
+        while isinstance(t_, ast.UnaryOp) and isinstance(t_.op, ast.Not):
+            neg, t_ = not neg, t_.operand
+        if not (isinstance(t_, ast.Compare) and len(t_.ops) == 1):
+            return None
+        l_ = ast.unparse(_sdef(ev.node, t_.left, {"self"})).replace(" ", "")
+        r_ = ast.unparse(_sdef(ev.node, t_.comparators[0], {"self"})).replace(" ", "")
+        is_size = lambda x: x in ("self._size()", "(_size:=self._size())")  # noqa: E731
+        is_lim = lambda x: x == "self.config.max_size_bytes"  # noqa: E731
+        o = t_.ops[0]
+        rel = None
+        if is_size(l_) and is_lim(r_):
+            rel = {ast.Gt: "gt", ast.LtE: "le", ast.GtE: "ge", ast.Lt: "lt"}.get(type(o))
+        elif is_lim(l_) and is_size(r_):
+            rel = {ast.Lt: "gt", ast.GtE: "le", ast.LtE: "ge", ast.Gt: "lt"}.get(type(o))
+        if rel is None:
+            return None
+        if neg:
+            rel = {"gt": "le", "le": "gt", "ge": "lt", "lt": "ge"}[rel]
+        return rel
     whiles = [n for n in own_walk(ev.node) if isinstance(n, ast.While)]
     okw = False
+    seen_form = False
     for w in whiles:
-        t = ast.unparse(w.test)
-        cmp_ = w.test
-        strict = isinstance(cmp_, ast.Compare) and len(cmp_.ops) == 1 and (
-            (isinstance(cmp_.ops[0], ast.Gt) and "self._size()" in ast.unparse(cmp_.left) and "max_size_bytes" in ast.unparse(cmp_.comparators[0]))
-            or (isinstance(cmp_.ops[0], ast.Lt) and "max_size_bytes" in ast.unparse(cmp_.left) and "self._size()" in ast.unparse(cmp_.comparators[0])))
-        if strict:
-            body_calls = [call_name(c) for st in w.body for c in ast.walk(st) if isinstance(c, ast.Call)]
-            if "self._remove_item_from_cache" in body_calls:
-                okw = True
-    ctx.expect(okw, "R18.5", "_cache_eviction[loop]", "files are removed through the entry+file remover while size > limit (strictly: a cache exactly at its limit evicts nothing more)", ev.loc())
-    guards = [n for n in own_walk(ev.node) if isinstance(n, ast.If) and "self._size()" in ast.unparse(n.test)
+        body_calls = [call_name(c) for st in w.body for c in ast.walk(st) if isinstance(c, ast.Call)]
+        if "self._remove_item_from_cache" not in body_calls:
+            continue
+        rel = size_vs_limit(w.test)
+        if rel is not None:
+            seen_form = True
+            okw = okw or rel == "gt"
+        elif isinstance(w.test, ast.Constant) and w.test.value is True:
+            # while True: <size bound>; if size <= limit: break; ... remove ...
+            exits = [st for st in w.body if isinstance(st, ast.If) and len(st.body) == 1 and isinstance(st.body[0], ast.Break) and not st.orelse]
+            first_rm = next((i for i, st in enumerate(w.body) if any(isinstance(c, ast.Call) and call_name(c).endswith("_remove_item_from_cache")
+                                                                     for c in ast.walk(st))), None)
+            if len(exits) == 1 and first_rm is not None and w.body.index(exits[0]) < first_rm:
+                rel = size_vs_limit(exits[0].test)
+                if rel is not None:
+                    seen_form = True
+                    okw = okw or rel == "le"
+    ctx.expect(okw if (okw or seen_form or not whiles) else None, "R18.5", "_cache_eviction[loop]",
+               "files are removed through the entry+file remover while size > limit (strictly: a cache exactly at its limit evicts nothing more)",
+               ev.loc())
+    guards = [n for n in own_walk(ev.node) if isinstance(n, ast.If) and "self._size()" in ast.unparse(_sdef(ev.node, n.test, {"self"}))
               and any(isinstance(x, ast.Return) for b in n.body for x in ast.walk(b))]
     okg = True
     for g_ in guards:
-        tt = ast.unparse(g_.test).replace(" ", "")
-        okg = okg and tt in ("notself._size()>self.config.max_size_bytes", "self._size()<=self.config.max_size_bytes")
+        okg = okg and size_vs_limit(g_.test) == "le"
     ctx.expect(okg, "R18.5", "_cache_eviction[no-op at or below the limit]",
                "eviction returns without deleting anything when size <= limit", ev.loc())
     rm = p.get_method(FC, "_remove_item_from_cache")
